@@ -175,11 +175,19 @@ def extra_phase(ctx):
     cases = cases + work
     res = C.run_impl("harness.props.c14_asan", cases, asan, asan=True, timeout=3000)
     reports = 0
+    incomplete, notrun, odd = [], 0, []
     for c, r in zip(cases, res):
+        if isinstance(r, dict) and r.get("notrun"):
+            notrun += 1
+        if isinstance(r, dict) and "exc" in r and "w" in c:
+            incomplete.append([c.get("w"), r.get("exc")])      # a workload that stopped early covered less than planned
+        if isinstance(r, dict) and r.get("other_exceptions"):
+            odd += r["other_exceptions"]
         if isinstance(r, dict) and "crash" in r:
             err = r["crash"].get("stderr", "")
             if "AddressSanitizer" in err or r["crash"].get("rc") not in (0, None):
                 reports += 1
                 summary = [ln for ln in err.splitlines() if "ERROR: AddressSanitizer" in ln or "SUMMARY" in ln or " #0 " in ln][:4]
                 out.violations.append((c, {"asan": summary or err[-600:]}, None, None, "AddressSanitizer report"))
-    return {"asan_cases": len(cases), "asan_reports": reports}
+    return {"asan_cases": len(cases), "asan_reports": reports, "asan_not_run_after_a_crash": notrun,
+            "asan_workloads_stopped_by_an_exception": incomplete, "asan_contract_rejections_of_unexpected_type": odd}
